@@ -23,7 +23,7 @@ type field struct {
 }
 
 type target struct {
-	kind   string // func | expr | const
+	kind   string // func | expr | const | cond
 	file   string
 	recv   string // receiver type name for methods ("" for plain functions)
 	name   string // Go function name (func/expr) or var name (const)
@@ -255,6 +255,53 @@ func translateTarget(repo string, t target, funcs map[string]*fnSig, consts map[
 		ps := strings.Join(params, " ")
 		var b strings.Builder
 		fmt.Fprintf(&b, "def %s %s : %s :=\n  %s\n\n", t.lean, ps, leanType(v.t), v.lean)
+		fmt.Fprintf(&b, "def %s_ok %s : Bool :=\n  %s\n\n", t.lean, ps, conj(v.panics, "true"))
+		return emitted{text: b.String()}
+	case "cond":
+		// the nth `if` condition of the function (source order), not counting `err != nil` checks
+		var fn *ast.FuncDecl
+		for _, d := range f.Decls {
+			if fd, ok := d.(*ast.FuncDecl); ok && fd.Name.Name == t.name {
+				rt, _ := recvTypeName(fd)
+				if t.recv == "" || rt == t.recv {
+					fn = fd
+				}
+			}
+		}
+		if fn == nil {
+			bad("function %s not found", t.name)
+		}
+		var cond ast.Expr
+		count := 0
+		ast.Inspect(fn, func(n ast.Node) bool {
+			is, ok := n.(*ast.IfStmt)
+			if !ok || cond != nil {
+				return true
+			}
+			if isErrNotNil(is.Cond) {
+				return true
+			}
+			if count == t.nth {
+				cond = is.Cond
+			}
+			count++
+			return true
+		})
+		if cond == nil {
+			bad("condition %d in %s not found", t.nth, t.name)
+		}
+		params := []string{}
+		for _, fl := range t.fields {
+			ev.vars[fl.path] = fl.t
+			params = append(params, fmt.Sprintf("(%s : %s)", leanIdent(fl.path), leanType(fl.t)))
+		}
+		v := ev.expr(cond)
+		if v.t != tBool {
+			bad("condition of type %s", v.t)
+		}
+		ps := strings.Join(params, " ")
+		var b strings.Builder
+		fmt.Fprintf(&b, "def %s %s : Bool :=\n  %s\n\n", t.lean, ps, v.lean)
 		fmt.Fprintf(&b, "def %s_ok %s : Bool :=\n  %s\n\n", t.lean, ps, conj(v.panics, "true"))
 		return emitted{text: b.String()}
 	}
